@@ -329,6 +329,9 @@ var sysOps = []sysOp{
 	{"node", "valset", "nosuch", "SetString", "v", 0},
 	{"nosuchmodule", "p", "x", "SetString", "v", 0},
 	{"", "p", "x", "SetString", "v", 0},
+	{"", "p", "max_memo_bytes", "SetInt64", "5", 0},
+	{"", "gno.land/r/sim/pb", "x", "SetString", "v", 0},
+	{"", "x", "y", "SetBool", "true", 0},
 	{"auth", "", "max_memo_bytes", "SetInt64", "9", 0},
 	{"auth", "p", "max_memo_bytes:x", "SetInt64", "9", 0},
 	{"params", "p", "x", "SetString", "v", 0},
